@@ -12,14 +12,22 @@
                                     model emits, with any zero padding, read back as that value, and every
                                     signed 8/32-bit displacement is recovered from its two's complement
                                     field (the decoder side of "sign-extended displacement as written");
+   * `decoder_reads_every_operand` (AL.Spec.X86.decodeMem_encodeMemRef) — kernel-checked, about the reference
+                                    decoder itself: EVERY memory operand of the documented syntax (no base or any of 16, no
+                                    index or any of 15, scale 1/2/4/8, every 32-bit displacement, both address sizes) is read
+                                    back exactly from its canonical ModRM/SIB/displacement encoding (rsp/r12 needing a SIB
+                                    byte, rbp/r13 needing a displacement, disp8 vs disp32, no-base disp32 included);
    * C11 `swap_same_address`, `nobase_scale2_same_address`, `nobase_scale1_same_address` — the NASM rewritings
                                     keep the address, for every register valuation.
 -/
 import AL.Properties.Sweep.C02
 import AL.Spec.X86Lemmas
+import AL.Spec.X86MemRoundTrip
 import AL.Properties.C11
 namespace AL.Properties.C02
 open AL AL.Impl AL.Spec.X86
+
+def mkMemEx : Mem := { size := 64, addr32 := false, base := some 13, index := some 12, scale := 8, disp := -129 }
 
 /-- **every displacement reads back**: unsigned field value and signed interpretation -/
 theorem disp_field_reads_back :
@@ -29,5 +37,17 @@ theorem disp_field_reads_back :
   ⟨fun c k h => leVal_assembleConst c h k,
    fun d h1 h2 => toSigned_roundtrip 8 (by decide) d (by simpa using h1) (by simpa using h2),
    fun d h1 h2 => toSigned_roundtrip 32 (by decide) d (by simpa using h1) (by simpa using h2)⟩
+
+/-- **the reference decoder reads back every memory operand** from its canonical encoding -/
+theorem decoder_reads_every_operand (m : Mem) (h : m.wf) (e : Ext) (reg : Nat) (rest : List Nat)
+    (hx : e.x = (encodeMemRef m).x) (hb : e.b = (encodeMemRef m).b) :
+    decodeMem e m.addr32 ⟨(encodeMemRef m).mod, reg, (encodeMemRef m).rm⟩ m.size
+        ((encodeMemRef m).sib ++ (encodeMemRef m).disp ++ rest) =
+      some (m, (encodeMemRef m).sib.length + (encodeMemRef m).disp.length) :=
+  decodeMem_encodeMemRef m h e reg rest hx hb
+
+/-- non-vacuity: `[r13+r12*8-0x81]` is well formed and encodes as mod 10, SIB, disp32 -/
+example : (mkMemEx).wf ∧ (encodeMemRef mkMemEx).mod = 2 ∧ (encodeMemRef mkMemEx).sib = [0xE5] := by
+  refine ⟨⟨rfl, ?_, ?_, ?_, ?_, ?_, ?_⟩, rfl, rfl⟩ <;> simp [mkMemEx]
 
 end AL.Properties.C02
